@@ -126,8 +126,310 @@ def split_tuple_assignments(tree):
     return n
 
 
+def propagate_copies(tree):
+    """`x = y` between two names that are each bound exactly once (y may be a parameter that is never re-bound): x is y everywhere, the
+    copy disappears (what inlining a helper whose parameter is passed through leaves behind)"""
+    n = 0
+    for fn in [x for x in ast.walk(tree) if isinstance(x, (ast.FunctionDef, ast.AsyncFunctionDef))]:
+        for _ in range(50):
+            stores = {}
+            for x in ast.walk(fn):
+                if isinstance(x, ast.Name) and isinstance(x.ctx, (ast.Store, ast.Del)):
+                    stores[x.id] = stores.get(x.id, 0) + 1
+                elif isinstance(x, ast.arg):
+                    stores[x.arg] = stores.get(x.arg, 0) + 1
+                elif isinstance(x, (ast.Global, ast.Nonlocal)):
+                    for nm in x.names:
+                        stores[nm] = stores.get(nm, 0) + 2
+                elif isinstance(x, (ast.MatchAs, ast.MatchStar)) and x.name:
+                    stores[x.name] = stores.get(x.name, 0) + 1
+                elif isinstance(x, (ast.FunctionDef, ast.AsyncFunctionDef, ast.ClassDef)) and x is not fn:
+                    stores[x.name] = stores.get(x.name, 0) + 1
+            done = False
+            for blk_owner in ast.walk(fn):
+                for f in ("body", "orelse", "finalbody"):
+                    blk = getattr(blk_owner, f, None)
+                    if not (isinstance(blk, list) and blk and isinstance(blk[0], ast.stmt)):
+                        continue
+                    for i, st in enumerate(blk):
+                        if (isinstance(st, ast.Assign) and len(st.targets) == 1 and isinstance(st.targets[0], ast.Name) and isinstance(st.value, ast.Name)
+                                and st.targets[0].id != st.value.id and stores.get(st.targets[0].id) == 1 and stores.get(st.value.id, 0) == 1):
+                            x, y = st.targets[0].id, st.value.id
+                            for nd in ast.walk(fn):
+                                if isinstance(nd, ast.Name) and nd.id == x and isinstance(nd.ctx, ast.Load):
+                                    nd.id = y
+                            del blk[i]
+                            if not blk:
+                                blk.append(ast.copy_location(ast.Pass(), st))
+                            n += 1
+                            done = True
+                            break
+                    if done:
+                        break
+                if done:
+                    break
+            if not done:
+                break
+    return n
+
+
+def flatten_starred_literals(tree):
+    """`f(*(a, b))` -> `f(a, b)`, also through a name bound once to a tuple / list literal of constants (`shape = (-1, 1); x.reshape(*shape)`)"""
+    n = 0
+    for fn in [x for x in ast.walk(tree) if isinstance(x, (ast.FunctionDef, ast.AsyncFunctionDef))]:
+        stores, lits = {}, {}
+        for x in ast.walk(fn):
+            if isinstance(x, ast.Name) and isinstance(x.ctx, ast.Store):
+                stores[x.id] = stores.get(x.id, 0) + 1
+            elif isinstance(x, ast.arg):
+                stores[x.arg] = stores.get(x.arg, 0) + 1
+        for st in ast.walk(fn):
+            if isinstance(st, ast.Assign) and len(st.targets) == 1 and isinstance(st.targets[0], ast.Name) and isinstance(st.value, (ast.Tuple, ast.List)) \
+                    and all(isinstance(e, ast.Constant) or (isinstance(e, ast.UnaryOp) and isinstance(e.operand, ast.Constant))
+                            or (isinstance(e, ast.Name) and stores.get(e.id, 0) <= 1) for e in st.value.elts):
+                if stores.get(st.targets[0].id) == 1:
+                    lits[st.targets[0].id] = st.value
+        for c in [x for x in ast.walk(fn) if isinstance(x, ast.Call)]:
+            new_args, changed = [], False
+            for a in c.args:
+                if isinstance(a, ast.Starred) and isinstance(a.value, (ast.Tuple, ast.List)) and not any(isinstance(e, ast.Starred) for e in a.value.elts):
+                    new_args += list(a.value.elts)
+                    changed = True
+                elif isinstance(a, ast.Starred) and isinstance(a.value, ast.Name) and a.value.id in lits:
+                    new_args += [_copy(e) for e in lits[a.value.id].elts]
+                    changed = True
+                else:
+                    new_args.append(a)
+            if changed:
+                c.args = new_args
+                n += 1
+    return n
+
+
+def namedtuples_to_tuples(tree):
+    """A module-level `class T(NamedTuple)` with fields only is a tuple with named positions: `T(x=a, k=b)` -> `(a, b)` and, for a local
+    name that is only ever read through fields of T, `state.k` -> `state[1]`.  A loop state written as a NamedTuple then reads like the
+    anonymous tuple it replaces (loop analyses work on slots)."""
+    classes = {}
+    for st in getattr(tree, "body", []):
+        if isinstance(st, ast.ClassDef) and any((isinstance(b, ast.Name) and b.id == "NamedTuple") or (isinstance(b, ast.Attribute) and b.attr == "NamedTuple") for b in st.bases):
+            body = [x for x in st.body if not (isinstance(x, ast.Expr) and isinstance(x.value, ast.Constant))]
+            if body and all(isinstance(x, ast.AnnAssign) and isinstance(x.target, ast.Name) for x in body):
+                classes[st.name] = ([x.target.id for x in body], {x.target.id: x.value for x in body if x.value is not None})
+    if not classes:
+        return 0
+    # a class that is used through the namedtuple API (_replace, _make, _asdict, _fields) keeps its form
+    for x in ast.walk(tree):
+        if isinstance(x, ast.Attribute) and x.attr in ("_replace", "_make", "_asdict", "_fields"):
+            return 0
+    n = 0
+
+    class C(ast.NodeTransformer):
+        def visit_Call(self, node):
+            self.generic_visit(node)
+            if isinstance(node.func, ast.Name) and node.func.id in classes and not any(isinstance(a, ast.Starred) for a in node.args) and not any(k.arg is None for k in node.keywords):
+                fields, defaults = classes[node.func.id]
+                vals = dict(zip(fields, node.args))
+                for k in node.keywords:
+                    if k.arg not in fields or k.arg in vals:
+                        return node
+                    vals[k.arg] = k.value
+                for f in fields:
+                    if f not in vals:
+                        if f not in defaults:
+                            return node
+                        vals[f] = _copy(defaults[f])
+                nonlocal n
+                n += 1
+                return ast.copy_location(ast.Tuple(elts=[vals[f] for f in fields], ctx=ast.Load()), node)
+            return node
+    C().visit(tree)
+    for fn in [x for x in ast.walk(tree) if isinstance(x, (ast.FunctionDef, ast.AsyncFunctionDef))]:
+        attrs = {}
+        for x in ast.walk(fn):
+            if isinstance(x, ast.Attribute) and isinstance(x.value, ast.Name):
+                attrs.setdefault(x.value.id, []).append(x)
+        for name, uses in attrs.items():
+            if name in ("self", "cls") or any(not isinstance(u.ctx, ast.Load) for u in uses):
+                continue
+            used = {u.attr for u in uses}
+            owners = [t for t, (fields, _d) in classes.items() if used <= set(fields)]
+            if len(owners) != 1:
+                continue
+            fields = classes[owners[0]][0]
+            for u in uses:
+                u.__class__ = ast.Subscript
+                i = fields.index(u.attr)
+                del u.attr
+                u.slice = ast.Constant(value=i)
+                n += 1
+    if n:
+        ast.fix_missing_locations(tree)
+    return n
+
+
+def unroll_literal_loops(tree):
+    """`for name, build in TABLE: <body>` over a literal tuple / list of at most six entries (written in place or bound once at module level)
+    -> the body once per entry with the loop variables replaced; a table-driven chain of cases then reads like the if / elif chain it encodes.
+    Not unrolled: loops with break / continue / else, or whose body re-binds a loop variable."""
+    module_lits = {}
+    counts = {}
+    for st in getattr(tree, "body", []):
+        if isinstance(st, ast.Assign) and len(st.targets) == 1 and isinstance(st.targets[0], ast.Name):
+            counts[st.targets[0].id] = counts.get(st.targets[0].id, 0) + 1
+            if isinstance(st.value, (ast.Tuple, ast.List)):
+                module_lits[st.targets[0].id] = st.value
+    module_lits = {k: v for k, v in module_lits.items() if counts.get(k) == 1}
+    n = 0
+    for fn in [x for x in ast.walk(tree) if isinstance(x, (ast.FunctionDef, ast.AsyncFunctionDef))]:
+        local_stores = {x.id for x in ast.walk(fn) if isinstance(x, ast.Name) and isinstance(x.ctx, ast.Store)} | {a.arg for a in ast.walk(fn) if isinstance(a, ast.arg)}
+        for node in ast.walk(fn):
+            for f in ("body", "orelse", "finalbody"):
+                blk = getattr(node, f, None)
+                if not (isinstance(blk, list) and blk and isinstance(blk[0], ast.stmt)):
+                    continue
+                i = 0
+                while i < len(blk):
+                    st = blk[i]
+                    i += 1
+                    if not isinstance(st, ast.For) or st.orelse:
+                        continue
+                    src = st.iter if isinstance(st.iter, (ast.Tuple, ast.List)) else (
+                        module_lits.get(st.iter.id) if isinstance(st.iter, ast.Name) and st.iter.id not in local_stores else None)
+                    if src is None or not (1 <= len(src.elts) <= 6) or any(isinstance(e, ast.Starred) for e in src.elts):
+                        continue
+                    if any(isinstance(x, (ast.Break, ast.Continue, ast.FunctionDef, ast.Lambda, ast.Yield, ast.YieldFrom)) for b_ in st.body for x in ast.walk(b_)):
+                        continue
+                    tnames = [st.target] if isinstance(st.target, ast.Name) else (list(st.target.elts) if isinstance(st.target, ast.Tuple) else None)
+                    if tnames is None or not all(isinstance(t, ast.Name) for t in tnames):
+                        continue
+                    tn = [t.id for t in tnames]
+                    if any(isinstance(x, ast.Name) and x.id in tn and isinstance(x.ctx, ast.Store) for b_ in st.body for x in ast.walk(b_)):
+                        continue
+                    # the loop variables must not be read after the loop
+                    after = blk[i:]
+                    if any(isinstance(x, ast.Name) and x.id in tn for a_ in after for x in ast.walk(a_)):
+                        continue
+                    new = []
+                    ok = True
+                    for e in src.elts:
+                        if isinstance(st.target, ast.Tuple):
+                            if not (isinstance(e, (ast.Tuple, ast.List)) and len(e.elts) == len(tn)):
+                                ok = False
+                                break
+                            binding = dict(zip(tn, e.elts))
+                        else:
+                            binding = {tn[0]: e}
+
+                        class S(ast.NodeTransformer):
+                            def visit_Name(self, nd):
+                                return _copy(binding[nd.id]) if isinstance(nd.ctx, ast.Load) and nd.id in binding else nd
+                        new += [S().visit(_copy(b_)) for b_ in st.body]
+                    if not ok:
+                        continue
+                    blk[i - 1:i] = new
+                    i = i - 1 + len(new)
+                    n += 1
+    if n:
+        ast.fix_missing_locations(tree)
+    return n
+
+
+def unroll_literal_comprehensions(tree):
+    """`(f(x) for x in (a, b, c))` / `[f(x) for x in [a, b, c]]` over a literal (or a name bound once to a literal) of at most six elements
+    -> `(f(a), f(b), f(c))`: element i of the result is a function of element i of the source, which element-wise rules need to see"""
+    n = 0
+    for fn in [x for x in ast.walk(tree) if isinstance(x, (ast.FunctionDef, ast.AsyncFunctionDef))]:
+        stores, lits = {}, {}
+        for x in ast.walk(fn):
+            if isinstance(x, ast.Name) and isinstance(x.ctx, ast.Store):
+                stores[x.id] = stores.get(x.id, 0) + 1
+            elif isinstance(x, ast.arg):
+                stores[x.arg] = stores.get(x.arg, 0) + 1
+        for st in ast.walk(fn):
+            if isinstance(st, ast.Assign) and len(st.targets) == 1 and isinstance(st.targets[0], ast.Name) and isinstance(st.value, (ast.Tuple, ast.List)) \
+                    and stores.get(st.targets[0].id) == 1 and not any(isinstance(e, ast.Starred) for e in st.value.elts):
+                lits[st.targets[0].id] = st.value
+
+        class U(ast.NodeTransformer):
+            def _unroll(self, node):
+                self.generic_visit(node)
+                if len(node.generators) != 1:
+                    return node
+                g = node.generators[0]
+                src = g.iter if isinstance(g.iter, (ast.Tuple, ast.List)) else (lits.get(g.iter.id) if isinstance(g.iter, ast.Name) else None)
+                if src is None or g.ifs or g.is_async or not isinstance(g.target, ast.Name) or not (1 <= len(src.elts) <= 6) or any(isinstance(e, ast.Starred) for e in src.elts):
+                    return node
+                if any(isinstance(x, (ast.Lambda, ast.ListComp, ast.GeneratorExp, ast.SetComp, ast.DictComp, ast.NamedExpr)) for x in ast.walk(node.elt)):
+                    return node
+                elts = []
+                for e in src.elts:
+                    class S(ast.NodeTransformer):
+                        def visit_Name(self, nd):
+                            return _copy(e) if nd.id == g.target.id and isinstance(nd.ctx, ast.Load) else nd
+                    elts.append(S().visit(_copy(node.elt)))
+                nonlocal n
+                n += 1
+                new = (ast.List if isinstance(node, ast.ListComp) else ast.Tuple)(elts=elts, ctx=ast.Load())
+                return ast.copy_location(new, node)
+
+            def visit_GeneratorExp(self, node):
+                return self._unroll(node)
+
+            def visit_ListComp(self, node):
+                return self._unroll(node)
+
+            def visit_FunctionDef(self, node):
+                return node if node is not fn else self.generic_visit(node)
+
+        U().visit(fn)
+    if n:
+        ast.fix_missing_locations(tree)
+    return n
+
+
+def merge_rebindings(tree):
+    """`x = e1; x = f(x)` (adjacent, the second reads x exactly once, outside nested scopes) -> `x = f(e1)`"""
+    n = 0
+    for node in ast.walk(tree):
+        for f in ("body", "orelse", "finalbody"):
+            blk = getattr(node, f, None)
+            if not (isinstance(blk, list) and blk and isinstance(blk[0], ast.stmt)):
+                continue
+            i = 0
+            while i < len(blk) - 1:
+                a, b = blk[i], blk[i + 1]
+                if (isinstance(a, ast.Assign) and isinstance(b, ast.Assign) and len(a.targets) == 1 and len(b.targets) == 1 and isinstance(a.targets[0], ast.Name)
+                        and isinstance(b.targets[0], ast.Name) and a.targets[0].id == b.targets[0].id and not isinstance(a.value, (ast.Lambda, ast.Yield, ast.YieldFrom, ast.Await))):
+                    x = a.targets[0].id
+                    uses, nested = [], False
+                    stack = [(b.value, False)]
+                    while stack:
+                        e, inner = stack.pop()
+                        for c in ast.iter_child_nodes(e):
+                            inn = inner or isinstance(c, SCOPES)
+                            if isinstance(c, ast.Name) and c.id == x and isinstance(c.ctx, ast.Load):
+                                uses.append(c)
+                                nested = nested or inn
+                            stack.append((c, inn))
+                    if isinstance(b.value, ast.Name) and b.value.id == x:
+                        uses = [b.value]
+                    if len(uses) == 1 and not nested and not any(isinstance(y, ast.Name) and y.id == x for y in ast.walk(a.value)):
+                        use, val = uses[0], a.value
+
+                        class R(ast.NodeTransformer):
+                            def visit_Name(self, nd):
+                                return val if nd is use else nd
+                        b.value = R().visit(b.value) if b.value is not use else val
+                        del blk[i]
+                        n += 1
+                        continue
+                i += 1
+    return n
+
+
 def _temps_and_tuples(tree):
-    total = 0
+    total = unroll_literal_comprehensions(tree) + flatten_starred_literals(tree) + merge_rebindings(tree) + propagate_copies(tree)
     # temporaries first: `t1 = e1; t2 = e2; a, b = t1, t2` must become `a, b = e1, e2` before deciding whether that assignment splits
     for _round in range(2):
         for x in ast.walk(tree):
@@ -143,7 +445,7 @@ def _temps_and_tuples(tree):
 def normalise(tree):
     """in place; returns the number of rewrites.  Order: temporaries and tuple assignments, append loops, private helpers
     (whose bodies are then already in normal form), and temporaries / tuples once more for what the inlining exposed"""
-    total = partials_to_defs(tree) + split_on_shared_predicates(tree) + split_conditional_returns(tree)
+    total = namedtuples_to_tuples(tree) + unroll_literal_loops(tree) + partials_to_defs(tree) + split_on_shared_predicates(tree) + split_conditional_returns(tree)
     ast.fix_missing_locations(tree)
     total += _temps_and_tuples(tree)
     n = append_loops_to_comprehensions(tree) + fuse_comprehensions(tree)
@@ -715,7 +1017,7 @@ def _inlinable_helpers(tree):
         straight = (is_proc or (isinstance(body[-1], ast.Return) and body[-1].value is not None)) and all(isinstance(s, _SIMPLE_STMTS) for s in (body if is_proc else body[:-1]))
         # a helper with branches (if / elif / early returns) is inlined only where it is called in tail position (`return helper(...)`):
         # its returns become the caller's
-        branching = not straight and all(isinstance(x, _SIMPLE_STMTS + (ast.If, ast.Return)) for s in body for x in ast.walk(s) if isinstance(x, ast.stmt))
+        branching = not straight and all(isinstance(x, _SIMPLE_STMTS + (ast.If, ast.Return, ast.Raise)) for s in body for x in ast.walk(s) if isinstance(x, ast.stmt))
         if not straight and not branching:
             continue
         if any(isinstance(x, (ast.FunctionDef, ast.Lambda, ast.Yield, ast.YieldFrom, ast.Await, ast.NamedExpr, ast.Global, ast.Nonlocal)) for s in body for x in ast.walk(s)):
@@ -847,7 +1149,7 @@ def inline_helpers(tree):
         """statements that replace `return <call>`: the helper's body with its parameters bound, or None"""
         fn, _, _br = helpers[call.func.id]
         body = [s_ for s_ in fn.body if not (isinstance(s_, ast.Expr) and isinstance(s_.value, ast.Constant))]
-        if not body or not all(isinstance(x, _SIMPLE_STMTS + (ast.If, ast.Return)) for s_ in body for x in ast.walk(s_) if isinstance(x, ast.stmt)):
+        if not body or not all(isinstance(x, _SIMPLE_STMTS + (ast.If, ast.Return, ast.Raise)) for s_ in body for x in ast.walk(s_) if isinstance(x, ast.stmt)):
             return None
         if any(isinstance(x, (ast.Lambda, ast.Yield, ast.YieldFrom, ast.Await, ast.NamedExpr)) for s_ in body for x in ast.walk(s_)):
             return None
